@@ -302,6 +302,10 @@ pub mod fl {
         #[cfg_attr(kani, kani::unwind(45))] fn c13_root3_values_w4_a() { root_list::<4>(&[1, 2, 3, 4, 5], &[3]) }
         #[cfg_attr(kani, kani::unwind(45))] fn c13_root3_values_w4_b() { root_list::<4>(&[6, 7, 8, 9, 10], &[3]) }
         #[cfg_attr(kani, kani::unwind(45))] fn c13_root3_values_w4_c() { root_list::<4>(&[11, 12, 13, 14, 15], &[3]) }
+        // the boundary degree == BITS (the early exit `degree >= BITS` must cover it: the Newton iteration overflows there)
+        #[cfg_attr(kani, kani::unwind(45))] fn c13_root_degree_bits_w3() { root_list::<3>(&[7, 6, 5, 1], &[3]) }
+        #[cfg_attr(kani, kani::unwind(45))] fn c13_root_degree_bits_w4() { root_list::<4>(&[15, 14, 13, 1], &[4]) }
+        #[cfg_attr(kani, kani::unwind(45))] fn c13_root_degree_bits_w8() { root_list::<8>(&[255, 250, 249, 1], &[8]) }
         #[cfg_attr(kani, kani::unwind(45))] fn c13_root_samples_w8_a() { root_list::<8>(&[255, 64, 63], &[2, 3]) }
         #[cfg_attr(kani, kani::unwind(45))] fn c13_root_samples_w8_b() { root_list::<8>(&[16, 15], &[2, 7]) }
         #[cfg_attr(kani, kani::unwind(45))] fn c13_root_samples_w8_c() { root_list::<8>(&[128, 127, 255], &[7]) }
